@@ -346,7 +346,21 @@ def execute(case, ctx):
             probe("repair_path_taken")
         n2, err2, w2, sa2 = exposed(rebound, rb, cfg, rpath)
         if n2 != nref:
-            viol("restart", "restarted archive has wrong number of snapshots", "%s: expected %d got %d (%s) after restart from snapshot %d" % (tag, nref, n2, err2, n - 1), point=tag)
+            key = None
+            try:
+                st_from = struct.unpack("<i", MS[n - 1][11])[0] if (n - 1) < len(MS) else None
+                if n2 == nref + 1 and st_from == -2 and drv["mode"] == "auto_step":
+                    with rb.quiet():
+                        a_, b_ = sa2[n2 - 2], sa2[n2 - 1]
+                    if abs(a_.t - b_.t) <= 1e-12 * max(abs(a_.t), 1e-300) and int(b_.steps_done) == int(a_.steps_done) + 1:
+                        # the known LAST_STEP defect in its step-cadence form: restarting from a snapshot taken in LAST_STEP re-enters integrate() in state RUNNING and
+                        # takes one more step of ~1e-16 to land on the target; with a snapshot every step that step produces one more snapshot at the same time
+                        key = "restart:extra-snapshot:restart-snapshot-taken-in-LAST_STEP"
+            except Exception:
+                key = None
+            viol("restart", "restarted archive has wrong number of snapshots", "%s: expected %d got %d (%s) after restart from snapshot %d" % (tag, nref, n2, err2, n - 1), point=tag, **({"key": key} if key else {}))
+            if not (key and ctx.known(key)):
+                return
             return
         for k in range(nref):
             d = rb.S_diff(load_S(rebound, rb, cfg, sa2, k, drop=WALLTIME_FIELDS), MSnw[k])
